@@ -378,6 +378,8 @@ class FileDescriptor(_ConsumerMixin, _LogOwner):
         streaming producer is registered, it will be paused until the buffered
         data is written to the underlying file descriptor.
         """
+        # The argument may be a one-shot iterable; it is traversed several times.
+        iovec = list(iovec)
         for i in iovec:
             _dataMustBeBytes(i)
         if not self.connected or not iovec or self._writeDisconnected:
